@@ -865,24 +865,24 @@ func genProxyError() (string, error) {
 			"atomic.LoadUint32(&s.downstreamCleaned) == 1": "(o.cleaned s)",
 			"atomic.LoadUint32(&s.upstreamReset) == 1":     "(o.upstreamReset s)",
 			"atomic.LoadUint32(&s.downstreamReset) == 1":   "(o.downstreamReset s)",
-			"s.oneway":                       "(o.oneway s)",
-			"s.directResponse":               "(o.directResponse s)",
-			"s.upstreamProcessDone.Load()":   "(o.processDone s)",
-			"s.upstreamRequest != nil":       "(o.hasUpstreamRequest s)",
-			"s.upstreamRequest.setupRetry":   "(o.setupRetry s)",
+			"s.oneway":                                       "(o.oneway s)",
+			"s.directResponse":                               "(o.directResponse s)",
+			"s.upstreamProcessDone.Load()":                   "(o.processDone s)",
+			"s.upstreamRequest != nil":                       "(o.hasUpstreamRequest s)",
+			"s.upstreamRequest.setupRetry":                   "(o.setupRetry s)",
 			"s.receiverFiltersAgainPhase != types.InitPhase": "(decide (o.againPhase s ≠ Phase.InitPhase))",
 		},
 		condFx: map[string]string{},
 		stmts: map[string]string{
-			"sid := atomic.LoadUint32(&s.ID)":            "",
-			"err = types.ErrExit":                        "let err := true",
-			"s.onUpstreamReset(s.resetReason.Load())":    "let s := o.onUpstreamReset s",
-			"s.ResetStream(s.resetReason.Load())":        "let s := o.resetStream s",
+			"sid := atomic.LoadUint32(&s.ID)":         "",
+			"err = types.ErrExit":                     "let err := true",
+			"s.onUpstreamReset(s.resetReason.Load())": "let s := o.onUpstreamReset s",
+			"s.ResetStream(s.resetReason.Load())":     "let s := o.resetStream s",
 			"variable.SetString(s.context, types.VarProxyIsDirectResponse, types.IsDirectResponse)": "let s := o.markDirect s",
-			"s.directResponse = false":                   "let s := o.setDirectResponse s false",
-			"s.retryState = nil":                         "let s := o.clearRetryState s",
-			"s.upstreamRequest.setupRetry = false":       "let s := o.setSetupRetry s false",
-			"phase = s.receiverFiltersAgainPhase":        "let phase := o.againPhase s",
+			"s.directResponse = false":             "let s := o.setDirectResponse s false",
+			"s.retryState = nil":                   "let s := o.clearRetryState s",
+			"s.upstreamRequest.setupRetry = false": "let s := o.setSetupRetry s false",
+			"phase = s.receiverFiltersAgainPhase":  "let phase := o.againPhase s",
 		},
 		skip: isLogStmt,
 	}
@@ -998,11 +998,11 @@ func genProxyRetry() (string, error) {
 			vars:  []string{"s"},
 			types: []string{"σ"},
 			conds: map[string]string{
-				"r.retiesRemaining == 0":                                   "(decide (o.remaining s = 0))",
-				"r.doRetryCheck(ctx, headers, reason)":                     "(o.doRetryCheck s)",
-				"r.cluster.ResourceManager().Retries().CanCreate()":        "(o.canCreate s)",
-				"atomic.CompareAndSwapUint32(&r.retryResourceHeld, 1, 0)":  "(o.held s)",
-				"atomic.CompareAndSwapUint32(&r.retryResourceHeld, 0, 1)":  "(!(o.held s))",
+				"r.retiesRemaining == 0":                                  "(decide (o.remaining s = 0))",
+				"r.doRetryCheck(ctx, headers, reason)":                    "(o.doRetryCheck s)",
+				"r.cluster.ResourceManager().Retries().CanCreate()":       "(o.canCreate s)",
+				"atomic.CompareAndSwapUint32(&r.retryResourceHeld, 1, 0)": "(o.held s)",
+				"atomic.CompareAndSwapUint32(&r.retryResourceHeld, 0, 1)": "(!(o.held s))",
 				"check != 0": "(decide (check ≠ 0))",
 			},
 			condFx: map[string]string{
@@ -1010,13 +1010,13 @@ func genProxyRetry() (string, error) {
 				"atomic.CompareAndSwapUint32(&r.retryResourceHeld, 0, 1)": "let s := o.setHeld s true",
 			},
 			stmts: map[string]string{
-				"r.cluster.ResourceManager().Retries().Decrease()":  "let s := o.decrease s",
-				"r.cluster.ResourceManager().Retries().Increase()":  "let s := o.increase s",
-				"r.cluster.Stats().UpstreamRequestRetry.Inc(1)":      "let s := o.countRetry s",
+				"r.cluster.ResourceManager().Retries().Decrease()":      "let s := o.decrease s",
+				"r.cluster.ResourceManager().Retries().Increase()":      "let s := o.increase s",
+				"r.cluster.Stats().UpstreamRequestRetry.Inc(1)":         "let s := o.countRetry s",
 				"r.cluster.Stats().UpstreamRequestRetryOverflow.Inc(1)": "let s := o.countOverflow s",
-				"r.retiesRemaining--":                                "let s := o.setRemaining s (o.remaining s - 1)",
-				"r.reset()":                                          "let s := reset o s",
-				"check := r.shouldRetry(ctx, headers, reason)":       "let (s, check) := shouldRetry o s",
+				"r.retiesRemaining--":                                   "let s := o.setRemaining s (o.remaining s - 1)",
+				"r.reset()":                                             "let s := reset o s",
+				"check := r.shouldRetry(ctx, headers, reason)":          "let (s, check) := shouldRetry o s",
 			},
 		}
 		return t
